@@ -33,28 +33,52 @@ inductive Stop
   | panic
 deriving Repr
 
+def stopOfSlot (s : RSlot) : Stop :=
+  match s.beh with
+  | .block _ typ => .block s typ
+  | _ => .panic
+
 def stopOf (rs : List RSlot) : Stop :=
   match stopper rs with
   | none => .allPass
-  | some s =>
-    match s.beh with
-    | .block _ typ => .block s typ
-    | _ => .panic
+  | some s => stopOfSlot s
+
+/-- what a statistic slot is told at `Entry` -/
+def statCall (blk : Option (Option BErr)) (s : SSlot) : Call :=
+  match blk with
+  | none => .passed s.id
+  | some b => .blocked s.id b
+
+def statPanics (blk : Option (Option BErr)) (ss : List SSlot) : Bool :=
+  match blk with
+  | none => ss.any fun s => s.beh = .pPassed
+  | some _ => ss.any fun s => s.beh = .pBlocked
+
+/-- what the statistic slots are told: `none` = passed, `some b` = blocked with `b` -/
+def Stop.blk : Stop → Option (Option BErr)
+  | .block s typ => some (some (blockVal s typ))
+  | _ => none
+
+def Stop.isPanic : Stop → Bool
+  | .panic => true
+  | _ => false
+
+def Stop.verdict : Stop → Option BErr
+  | .block s typ => some (blockVal s typ)
+  | _ => none
 
 /-- is a panic raised inside `SlotChain.Entry`? -/
 def entryPanics (ch : ChainDef) : Bool :=
-  prepPanics ch.ps ||
-  match stopOf ch.rs with
-  | .allPass => ch.ss.any fun s => s.beh = .pPassed
-  | .block _ _ => ch.ss.any fun s => s.beh = .pBlocked
-  | .panic => true
+  prepPanics ch.ps || (stopOf ch.rs).isPanic || statPanics (stopOf ch.rs).blk ch.ss
+
+/-- a rule slot blocks and a statistic slot then panics in `OnEntryBlocked`: the request is admitted (fail-open) but its
+    context stays marked blocked until it exits -/
+def blockPanics (ch : ChainDef) : Bool :=
+  !prepPanics ch.ps && (stopOf ch.rs).verdict.isSome && statPanics (stopOf ch.rs).blk ch.ss
 
 /-- the verdict handed to the caller: `none` = admitted -/
 def specVerdict (ch : ChainDef) : Option BErr :=
-  if entryPanics ch then none
-  else match stopOf ch.rs with
-    | .block s typ => some (blockVal s typ)
-    | _ => none
+  if entryPanics ch then none else (stopOf ch.rs).verdict
 
 def hooksOfP (ps : List PSlot) : Hooks := ps.flatMap fun s => hookOf s.id s.hook
 def hooksOfR (rs : List RSlot) : Hooks := rs.flatMap fun s => hookOf s.id s.hook
@@ -66,25 +90,22 @@ def hooksPanic (k : Hooks) : Bool := k.any fun x => x.2 = .panic
 
 /-- the calls `Entry` makes, absent panics -/
 def specEntryCalls (ch : ChainDef) : List Call :=
-  ch.ps.map (.prep ·.id) ++ (ranRules ch.rs).map (.check ·.id) ++
-  match stopOf ch.rs with
-  | .block s typ => ch.ss.map (.blocked ·.id (some (blockVal s typ)))
-  | _ => ch.ss.map (.passed ·.id)
+  ch.ps.map (fun s => Call.prep s.id) ++ (ranRules ch.rs).map (fun s => Call.check s.id) ++
+  ch.ss.map (statCall (stopOf ch.rs).blk)
 
 /-- the whole log of the `entry` op: `none` = a panic was raised, no claim -/
 def specEntryLog (ch : ChainDef) : Option (List Call) :=
   if entryPanics ch then none
-  else match stopOf ch.rs with
-    | .block _ _ =>
-      -- blocked: `api.entry` exits the entry itself; the handlers registered by the slots run
-      if hooksPanic (specHooks ch) then none
-      else some (specEntryCalls ch ++ (specHooks ch).map (.handler ·.1))
-    | _ => some (specEntryCalls ch)
+  else if (stopOf ch.rs).verdict.isSome then
+    -- blocked: `api.entry` exits the entry itself; the handlers registered by the slots run
+    if hooksPanic (specHooks ch) then none
+    else some (specEntryCalls ch ++ (specHooks ch).map (fun x => Call.handler x.1))
+  else some (specEntryCalls ch)
 
 /-- the log of the first `Exit` of an admitted entry whose `Entry` raised no panic -/
 def specExitLog (ss : List SSlot) (hooks : Hooks) : Option (List Call) :=
   if hooksPanic hooks || ss.any (fun s => s.beh = .pCompleted) then none
-  else some (hooks.map (.handler ·.1) ++ ss.map (.completed ·.id))
+  else some (hooks.map (fun x => Call.handler x.1) ++ ss.map (fun s => Call.completed s.id))
 
 /-! ## spec-side interpreter of the op language -/
 
@@ -145,8 +166,6 @@ def sstep (s : SState) : Op → SState × Out
     match s.findEntry e, s.findChain n with
     | none, some ins =>
       let ch := specChain ins
-      let stop := stopOf ch.rs
-      let bp := entryPanics ch && !prepPanics ch.ps && (match stop with | .block _ _ => true | _ => false)
       match specVerdict ch with
       | some b =>
         ({ s with lastLog := specEntryLog ch,
@@ -154,7 +173,7 @@ def sstep (s : SState) : Op → SState × Out
       | none =>
         ({ s with lastLog := specEntryLog ch,
                   entries := s.entries ++ [{ name := e, chain := n, hooks := specHooks ch,
-                                             panicked := entryPanics ch, blockPanic := bp }] }, .pass)
+                                             panicked := entryPanics ch, blockPanic := blockPanics ch }] }, .pass)
     | _, _ => (s, .bad)
   | .whenexit e id b =>
     match s.findEntry e with
